@@ -38,6 +38,9 @@ type Solver struct {
 	Timeout int       // ms per query
 	LastErr string
 	depth   int
+	// lazy mode: nothing is sent until a check is needed
+	pending   []*Term
+	needReset bool
 }
 
 func NewSolver(kind string, timeoutMs int) (*Solver, error) {
@@ -105,15 +108,24 @@ func (s *Solver) send(line string) {
 
 // Reset drops every assertion and definition.
 func (s *Solver) Reset() {
-	if s.Kind == "cvc5" {
-		// cvc5 1.0: (reset) is supported but loses options; re-send preamble.
-		s.send("(reset)")
-	} else {
-		s.send("(reset)")
-	}
+	s.pending = s.pending[:0]
+	s.needReset = true
 	s.epoch++
 	s.depth = 0
-	s.preamble()
+}
+
+// sync sends a pending reset and the buffered assertions.
+func (s *Solver) sync() {
+	if s.needReset {
+		s.send("(reset)")
+		s.preamble()
+		s.needReset = false
+	}
+	for _, t := range s.pending {
+		s.define(t)
+		s.send(fmt.Sprintf("(assert %s)", t.smtName()))
+	}
+	s.pending = s.pending[:0]
 }
 
 // define makes sure t and all its subterms are declared/defined in the current epoch.
@@ -169,8 +181,7 @@ func (s *Solver) Assert(t *Term) {
 	if s.depth != 0 {
 		panic("Assert inside push")
 	}
-	s.define(t)
-	s.send(fmt.Sprintf("(assert %s)", t.smtName()))
+	s.pending = append(s.pending, t)
 }
 
 func (s *Solver) readLine() (string, error) {
@@ -215,6 +226,7 @@ func (s *Solver) checkSat() Result {
 
 // Check decides satisfiability of (assertions ∧ extra). extra may be nil.
 func (s *Solver) Check(extra *Term) Result {
+	s.sync()
 	if extra != nil {
 		s.define(extra)
 		s.send("(push 1)")
@@ -228,6 +240,7 @@ func (s *Solver) Check(extra *Term) Result {
 
 // CheckModel is Check followed, when sat, by reading the values of vars.
 func (s *Solver) CheckModel(extra *Term, vars []*Term) (Result, map[*Term]uint64) {
+	s.sync()
 	for _, v := range vars {
 		s.define(v)
 	}
